@@ -144,29 +144,30 @@ func (t *Table) ReadFrom(r io.Reader) (int64, error) {
 	}
 	total := int64(n)
 	blocksCount := uint32(math.Ceil(float64(t.RowsCount) / float64(255)))
-	t.Blocks = make([][]byte, blocksCount)
-	t.BlockIndices = make([][]byte, blocksCount)
-	for i := range t.Blocks {
+	// the row count is not trusted to size the lists: they grow with the sums actually read
+	t.Blocks = make([][]byte, 0, minUint32(blocksCount, 4096))
+	t.BlockIndices = make([][]byte, 0, minUint32(blocksCount, 4096))
+	for i := uint32(0); i < blocksCount; i++ {
 		n, b, err := t.readBlock(r)
 		if err != nil {
-			if errors.Is(err, io.EOF) {
+			if errors.Is(err, io.EOF) || errors.Is(err, io.ErrUnexpectedEOF) {
 				err = fmt.Errorf("unexpected EOF reading block (%d/%d)", i, blocksCount)
 			}
 			return 0, err
 		}
 		total += int64(n)
-		t.Blocks[i] = b
+		t.Blocks = append(t.Blocks, b)
 	}
-	for i := range t.BlockIndices {
+	for i := uint32(0); i < blocksCount; i++ {
 		n, b, err := t.readBlock(r)
 		if err != nil {
-			if errors.Is(err, io.EOF) {
+			if errors.Is(err, io.EOF) || errors.Is(err, io.ErrUnexpectedEOF) {
 				err = fmt.Errorf("unexpected EOF reading block index (%d/%d)", i, blocksCount)
 			}
 			return 0, err
 		}
 		total += int64(n)
-		t.BlockIndices[i] = b
+		t.BlockIndices = append(t.BlockIndices, b)
 	}
 	return total, nil
 }
